@@ -19,7 +19,7 @@ if [ "${1:-}" = "replay" ]; then
   exit $?
 fi
 tier="${1:-thorough}"
-if [ "$tier" = "thorough" ]; then W="${VERIF_MIRI_WORKLOADS:-8}"; N="${VERIF_MIRI_SEEDS:-64}"; else W="${VERIF_MIRI_WORKLOADS:-3}"; N="${VERIF_MIRI_SEEDS:-8}"; fi
+if [ "$tier" = "thorough" ]; then W="${VERIF_MIRI_WORKLOADS:-8}"; N="${VERIF_MIRI_SEEDS:-64}"; else W="${VERIF_MIRI_WORKLOADS:-3}"; N="${VERIF_MIRI_SEEDS:-16}"; fi
 start=$(date +%s)
 ok=0
 # build once, then run the workloads PAR at a time (each interprets N schedule seeds in parallel)
